@@ -574,15 +574,20 @@ def solve_obligation(ob, symbols, timeout_ms=None):
     quant = has_quantifier(neg) or any(has_quantifier(p) for p in ob.pc)
     r = z3.unknown
     backend = "z3"
-    if not quant:
-        # quantifier-free: try the nonlinear-real tactic first (fast where it applies), then the default solver
+    if not has_quantifier(neg):
+        # try the nonlinear-real tactic first on the quantifier-free part of the hypotheses (dropping hypotheses is
+        # sound for a proof; a `sat` answer is only trusted when nothing was dropped), then the default solver
         try:
             s2 = z3.Tactic("qfnra-nlsat").solver()
+            dropped = False
             for p in ob.pc:
-                s2.add(p)
+                if has_quantifier(p):
+                    dropped = True
+                else:
+                    s2.add(p)
             s2.add(neg)
             r2 = _check(s2, min(4000, timeout_ms // 5))
-            if r2 != z3.unknown:
+            if r2 == z3.unsat or (r2 == z3.sat and not dropped):
                 r, s, backend = r2, s2, "z3-nlsat"
         except z3.Z3Exception:
             pass
